@@ -10,3 +10,6 @@ import Proofs.C09
 #print axioms C09.num_spec
 #print axioms C09.fixed_spec
 #print axioms C09.fixed_spec_nodup
+#print axioms C09.first_order_is_observation_order
+#print axioms C09.key_less_strict_total
+#print axioms C09.sortKeys_independent
